@@ -74,6 +74,9 @@ structure Facts03 where
   /-- an instance made by `key=empty` or made up by the strict branch gets its own entry in the
       frequency table (so its mandatory members are checked)                             (good: true) -/
   freqTouch : Bool
+  /-- the count of a member is the total number of values over ALL keys that address it (`+= len(value)`: `tags=a&tags=b`,
+      `tags[0]=a&tags[1]=b` and mixtures count alike); the model's `evCount` is that sum           (good: true) -/
+  freqAccumulates : Bool
   /-- the value that spells an empty array / an object without members -/
   emptyMarker : Text
   /-- characters that separate the pairs of a query string -/
